@@ -235,7 +235,7 @@ def _good_copy_decoys(s):
         if prev:
             prev(a)
         import cbor2
-        good = authsim.authdata(s.rp_id, 0x45, max(s.stored, s.count) + 1, aaguid=bytes(16), cred_id=s.cred_id, cose_bytes=a.cred.cose_bytes)
+        good = authsim.authdata(s.rp_id, 0x45, min(max(s.stored, s.count, 0) + 1, 2 ** 32 - 1), aaguid=bytes(16), cred_id=s.cred_id, cose_bytes=a.cred.cose_bytes)
         ao = cbor2.dumps({"fmt": "none", "attStmt": {}, "authData": good})
         a.extra_response = {"attestationObject": authsim.b64u(ao), "authData": authsim.b64u(good), "authenticator_data": authsim.b64u(good), "unsignedAuthenticatorData": authsim.b64u(good)}
     s.post = post
